@@ -419,11 +419,48 @@ func (sc *StorageCar) Has(ctx context.Context, keyStr string) (bool, error) {
 // form. The keyStr value must be a valid CID binary string (not a multibase
 // string representation), i.e. generated with CID#KeyString().
 func (sc *StorageCar) Get(ctx context.Context, keyStr string) ([]byte, error) {
-	rdr, err := sc.GetStream(ctx, keyStr)
+	if sc.reader == nil {
+		return nil, fmt.Errorf("cannot read from a write-only CAR")
+	}
+
+	keyCid, err := cid.Cast([]byte(keyStr))
 	if err != nil {
+		return nil, fmt.Errorf("bad CID key: %w", err)
+	}
+
+	if !sc.opts.StoreIdentityCIDs {
+		// see GetStream
+		if digest, ok, err := store.IsIdentity(keyCid); err != nil {
+			return nil, err
+		} else if ok {
+			return digest, nil
+		}
+	}
+
+	sc.mu.RLock()
+	defer sc.mu.RUnlock()
+
+	if sc.closed {
+		return nil, ErrClosed
+	}
+
+	// Get buffers the whole block, so read it the way every other buffering reader does: a section
+	// over MaxAllowedSectionSize is refused with the too-large error instead of being slurped.
+	data, _, _, err := store.FindCid(
+		sc.reader,
+		sc.idx,
+		keyCid,
+		sc.opts.BlockstoreUseWholeCIDs,
+		sc.opts.ZeroLengthSectionAsEOF,
+		sc.opts.MaxAllowedSectionSize,
+		true,
+	)
+	if errors.Is(err, index.ErrNotFound) {
+		return nil, ErrNotFound{Cid: keyCid}
+	} else if err != nil {
 		return nil, err
 	}
-	return io.ReadAll(rdr)
+	return data, nil
 }
 
 // GetStream returns a stream of the block bytes identified by the given CID
